@@ -7,7 +7,12 @@ import (
 )
 
 func (s *Server) Accept() (con net.Conn, err error) {
+	if ln := verifListener(s); ln != nil {
+		con, err = ln.Accept()
+		goto accepted
+	}
 	con, err = s.listener.AcceptTCP()
+accepted:
 	if err != nil {
 		return
 	}
@@ -18,9 +23,15 @@ func (s *Server) Accept() (con net.Conn, err error) {
 }
 
 func (s *Server) Close() error {
+	if ln := verifListener(s); ln != nil {
+		return ln.Close()
+	}
 	return s.listener.Close()
 }
 
 func (s *Server) Addr() net.Addr {
+	if ln := verifListener(s); ln != nil {
+		return ln.Addr()
+	}
 	return s.listener.Addr()
 }
